@@ -469,6 +469,7 @@ impl SubRule {
         while index < max {
             *state_index = back_state;
             if self.match_opt_states(opt_states, word, pos, forwards)? {
+                let rep_pos = *pos;
                 let mut m = true;
                 while *state_index < states.len() {
                     if !self.context_match(states, state_index, word, pos, forwards, false)? {
@@ -481,6 +482,8 @@ impl SubRule {
                     return Ok(true)
                 } else {
                     index += 1;
+                    // the next repetition starts where this one ended, not where the failed remainder stopped
+                    *pos = rep_pos;
                     *self.alphas.borrow_mut() = back_alphas.clone();
                     *self.variables.borrow_mut() = back_varlbs.clone();
                     continue;
